@@ -33,6 +33,7 @@ let dump_network (nw : network) (b : Buffer.t) : unit =
   pr "overflow %s %s %s\n" (zs od) (nid os) (nid oe);
   List.iter (fun t -> pr "svc %s : %s\n" (zs t) (ids (service_nodes nw t))) types;
   pr "maint : %s\n" (ids nw.nw_maint);
+  pr "considered %b\n" (maintenance_considered nw);
   pr "sdepots : %s\n" (ids nw.nw_sdepots);
   pr "edepots : %s\n" (ids nw.nw_edepots);
   pr "allbystart : %s\n" (ids (List.map snd nw.nw_all_by_start));
